@@ -1431,6 +1431,8 @@ class Executor:
             elif isinstance(a, VBool):
                 sig.append(("b",))
                 terms.append(a.t)
+            elif isinstance(a, VFunc):
+                sig.append(("fn", a.name))        # an uninterpreted callable, identified by name: no term argument
             else:
                 raise Unsupported("opaque spec arg %r" % (a,), n)
         key = (name, tuple(sig))
@@ -1458,11 +1460,14 @@ class Executor:
                 elif sg[0] == "i":
                     v = z3.Int("%s!a%d" % (name, k))
                     bvals.append(VInt(v))
+                elif sg[0] == "fn":
+                    bvals.append(VFunc(sg[1]))
+                    continue
                 else:
                     v = z3.Bool("%s!a%d" % (name, k))
                     bvals.append(VBool(v))
                 bvars.append(v)
-            ufname = "spec_" + name + "_" + "".join(x[0] for x in sig)
+            ufname = "spec_" + name + "_" + "".join(x[0][0] for x in sig)
             saved = getattr(self, "_defining", None)
             if is_rec:
                 rs = {"float": xr.F, "int": z3.IntSort(), "bool": z3.BoolSort()}[rec[name]]
